@@ -62,6 +62,31 @@ Lemma kibble_closed s1 s2 s3 m0 m1 m2 m3 o :
 Proof. unfold gen_kibble, envM, kallenR. den_simpl. field. Qed.
 
 
+(* ---------- literal vanishing arguments inserted before doit() (massless particles, sigma = 0) ---------- *)
+Lemma kallen_zero_args x y z :
+  denR (envK x y z) gen_kallen_x0 = kallenR 0 y z /\
+  denR (envK x y z) gen_kallen_y0 = kallenR x 0 z /\
+  denR (envK x y z) gen_kallen_z0 = kallenR x y 0 /\
+  denR (envK x y z) gen_kallen_xy0 = kallenR 0 0 z /\
+  denR (envK x y z) gen_kallen_float0 = kallenR 0 y z.
+Proof.
+  unfold gen_kallen_x0, gen_kallen_y0, gen_kallen_z0, gen_kallen_xy0, gen_kallen_float0, envK, kallenR.
+  den_simpl. repeat split; field.
+Qed.
+Lemma kibble_massless s1 s2 s3 m0 m1 m2 m3 o :
+  denR (envM s1 s2 s3 m0 m1 m2 m3 o) gen_kibble_m1_0 =
+    kallenR (kallenR s2 (m2^2) (m0^2)) (kallenR s3 (m3^2) (m0^2)) (kallenR s1 0 (m0^2)) /\
+  denR (envM s1 s2 s3 m0 m1 m2 m3 o) gen_kibble_m2_0 =
+    kallenR (kallenR s2 0 (m0^2)) (kallenR s3 (m3^2) (m0^2)) (kallenR s1 (m1^2) (m0^2)) /\
+  denR (envM s1 s2 s3 m0 m1 m2 m3 o) gen_kibble_m3_0 =
+    kallenR (kallenR s2 (m2^2) (m0^2)) (kallenR s3 0 (m0^2)) (kallenR s1 (m1^2) (m0^2)) /\
+  denR (envM s1 s2 s3 m0 m1 m2 m3 o) gen_kibble_s1_0 =
+    kallenR (kallenR s2 0 (m0^2)) (kallenR s3 0 (m0^2)) (kallenR 0 (m1^2) (m0^2)).
+Proof.
+  unfold gen_kibble_m1_0, gen_kibble_m2_0, gen_kibble_m3_0, gen_kibble_s1_0, envM, kallenR.
+  den_simpl. repeat split; field.
+Qed.
+
 (* Rest frame of the parent: total three-momentum zero, m0 = E1+E2+E3. *)
 Lemma kibble_event
   E1 x1 y1 z1 E2 x2 y2 z2 E3 x3 y3 z3 m0 m1 m2 m3 o :
